@@ -111,7 +111,8 @@ def s2(ck, an, pm):
     registered = set(pm.methods)
     fl = an.fa("PandasMetrics.level")
     vcalls = fl.calls_to("PandasMetrics.validate")
-    others = [s for s in all_stmts(fl) if not (isinstance(s, ast.Expr) and isinstance(s.value, ast.Call) and s.value in vcalls) and not (isinstance(s, ast.Expr) and isinstance(s.value, ast.Constant)) and not isinstance(s, ast.Pass)]
+    others = [s for s in all_stmts(fl) if not (isinstance(s, ast.Expr) and isinstance(s.value, ast.Call) and s.value in vcalls) and not (isinstance(s, ast.Expr) and isinstance(s.value, ast.Constant)) and not isinstance(s, (ast.Pass, ast.Assert))
+              and any(isinstance(x, ast.Name) and x.id == fl.f.params[0] for x in ast.walk(s))]      # statements that touch the series itself
     if not vcalls:
         ck.fail("ORD", "S2.level-validates-first", fl.f.short, fl.f.loc, "level() does not call validate()", construct="missing:self.validate()")
     else:
